@@ -211,6 +211,7 @@ func main() {
 	repo := flag.String("repo", "/repo", "repository root")
 	rulesFlag := flag.String("rules", "", "with -dump obls: comma separated rules")
 	noControls := flag.Bool("nocontrols", false, "skip fixtures (debug only)")
+	mutant := flag.Bool("mutant", false, "internal: analyse a mutated copy given by -repo and print new violations only")
 	fixturesOnly := flag.Bool("fixtures", false, "with -dump obls: analyse the fixtures instead of the repo")
 	flag.Parse()
 	if t := os.Getenv("VERIF_TIER"); t != "" && *tier == "quick" {
@@ -243,6 +244,9 @@ func main() {
 	if pd == nil {
 		fmt.Fprintf(os.Stderr, "unknown or unclaimed property %q\n", *prop)
 		os.Exit(2)
+	}
+	if *mutant {
+		os.Exit(mutantMode(pd, *repo))
 	}
 	start := time.Now()
 	code := checkProperty(pd, *repo, *tier, seed, !*noControls, start)
